@@ -522,6 +522,9 @@ func (obj *Package) Remove(name string) (removed bool) {
 		removed = true
 		if vv.Pkg == obj {
 			obj.withdrawVar(name, vv, false)
+		} else if obj.funcs[name] == nil {
+			// An imported variable is gone, so is the import.
+			delete(obj.Imports, name)
 		}
 	}
 	delete(obj.classes, name)
@@ -680,6 +683,9 @@ func (obj *Package) Undefine(name string) {
 		delete(obj.funcs, name)
 		if fi.Pkg == obj {
 			obj.withdrawFunc(name, fi, false)
+		} else if obj.vars[name] == nil {
+			// An imported function is gone, so is the import.
+			delete(obj.Imports, name)
 		}
 	}
 	obj.mu.Unlock()
